@@ -537,7 +537,13 @@ class POP3SubprocessInterface:
             while True:
                 if self.reader is None or self.reader.at_eof():
                     break
-                msg = await self.reader.readuntil(b"\r\n")
+                # NOTE: The data is passed on as it comes. It must not be
+                #       read line by line: a message with a very long line
+                #       (or one without any CRLF) exceeds the reader's limit.
+                #
+                msg = await self.reader.read(65536)
+                if not msg:
+                    break
                 await self.pop3_client.push(msg)
         except (OSError, asyncio.IncompleteReadError, ConnectionResetError):
             pass
